@@ -132,6 +132,7 @@ ev_recv(int i, int blocking)
 		WITNESS("nonblocking recv refused");
 	} else {
 		CHECK(!KDONE(i), "blocking receive waits");
+		KWAIT_POST(i, 0);
 	}
 	sweep_deliveries();
 	monitor();
